@@ -41,7 +41,14 @@ Id(n) == [k |-> "id", name |-> n]
 RegexTok(re, form) == LET p == RenderPat(re) IN
   [k |-> "regex", pat |-> p, form |-> form, bad |-> "none", re |-> re,
    body |-> IF form = "q" THEN QuotedSource(p) ELSE <<>>, txt |-> ""]
-Cases == IF Mode = "regex" THEN {<<"re", re, f>> : re \in Regexes, f \in {"q", "r"}}
+(* Mode "scan": every quoted literal body of <= MaxLen characters over {\ " [ ] a} followed by a closing quote. *)
+(* The scanner (L2, ScanQuoted) determines where the literal ends and which pattern reaches the regex engine;   *)
+(* whether that pattern is a valid regular expression is the engine's business, so the expectation is           *)
+(* differential: the quoted literal behaves exactly like the raw literal of the scanned pattern.                *)
+SAlpha == <<92, 34, 91, 93, 97>>
+Bodies == {Strict([i \in 1..Len(b) |-> SAlpha[b[i]]]) \o <<34>> : b \in UNION {[1..n -> 1..5] : n \in 0..MaxLen}}
+Cases == IF Mode = "scan" THEN {<<"scan", b>> : b \in Bodies}
+         ELSE IF Mode = "regex" THEN {<<"re", re, f>> : re \in Regexes, f \in {"q", "r"}}
          ELSE {<<"w", p, st, lim, "top">> : p \in WPatterns, st \in BOOLEAN, lim \in {-1, 0, 1, 2}}
               \* the limits are settings of the parser: they hold at every nesting level
               \cup {<<"w", p, FALSE, lim, wr>> : p \in WPatterns, lim \in {0, 1}, wr \in {"paren", "not"}}
@@ -56,7 +63,7 @@ Toks == IF cas[1] = "re"
         ELSE IF cas[5] = "paren" THEN <<[k |-> "lp"]>> \o WToks \o <<[k |-> "rp"]>>
         ELSE IF cas[5] = "not" THEN <<[k |-> "not", a |-> 1], [k |-> "lp"], [k |-> "not", a |-> 0]>> \o WToks \o <<[k |-> "rp"]>>
         ELSE WToks
-Star == IF cas[1] = "re" THEN -1 ELSE cas[4]
+Star == IF cas[1] \in {"re", "scan"} THEN -1 ELSE cas[4]
 Vector ==
   LET r == ParseFilterS(Toks, Sch, 128, Star) IN
   IF r.ok
@@ -64,7 +71,11 @@ Vector ==
         runs |-> Strict([n \in 1..Len(Ctxs) |-> [ctx |-> n, out |-> "ok", res |-> EvalFilter(r.node, Ctxs[n], Sch)]]),
         uses |-> <<>>]
   ELSE [ev |-> "filter", sch |-> 1, max |-> 128, star |-> Star, ts |-> Toks, ok |-> FALSE]
-Emit == PrintT(<<"REPLAY", ToJson(Vector)>>)
+ScanVector == LET r == ScanQuoted(cas[2]) IN
+  [ev |-> "scan", sch |-> 1, body |-> cas[2],
+   exp |-> IF r.ok /\ r.n = Len(cas[2]) THEN "as-raw" ELSE "reject",
+   pat |-> IF r.ok THEN r.pat ELSE <<>>]
+Emit == PrintT(<<"REPLAY", ToJson(IF cas[1] = "scan" THEN ScanVector ELSE Vector)>>)
 
 (* in-model theorems *)
 ScannerInvertsQuoting ==
